@@ -14,7 +14,7 @@ var (
 	profC07 = sim.Profile{Name: "c07", EDSFaults: 0.2, Steps: 110, CanaryProb: 1, Hostile: 3, Churn: 0.7, Edits: 1.5, Holds: 0.5, Commands: 2, DupPods: 0.2, Affinity: -1, MaxNodes: 6, Converge: true, Retention: true}
 	profC08 = sim.Profile{Name: "c08", Steps: 120, CanaryProb: 0.5, Hostile: 1, Churn: 3, Edits: 1.5, Holds: 4, Commands: 3, DupPods: 0.3, Affinity: -1, MaxNodes: 7, Converge: true}
 	profC12 = sim.Profile{Name: "c12", Steps: 160, CanaryProb: 0.5, Hostile: 1, Churn: 1, Edits: 2, Holds: 0.5, Commands: 0.7, DupPods: 1, Affinity: -1, MaxNodes: 5, MultiEDS: true, OldDS: 0.3, Overrides: 1.5}
-	profC13 = sim.Profile{Name: "c13", RSFaults: 0.15, Steps: 140, CanaryProb: 0.5, Hostile: 1, Churn: 0.7, Edits: 5, Holds: 0.5, Commands: 0.7, DupPods: 0.3, Affinity: -1, MaxNodes: 5, Converge: true}
+	profC13 = sim.Profile{Name: "c13", RSFaults: 0.15, EnvOrder: 0.5, Steps: 140, CanaryProb: 0.5, Hostile: 1, Churn: 0.7, Edits: 5, Holds: 0.5, Commands: 0.7, DupPods: 0.3, Affinity: -1, MaxNodes: 5, Converge: true}
 	profC14 = sim.Profile{Name: "c14", Steps: 100, CanaryProb: 0.5, Hostile: 2, Churn: 1.5, Edits: 1.5, Holds: 1, Commands: 1, DupPods: 1, Affinity: -1, MaxNodes: 6, Converge: true}
 	profC09 = sim.Profile{Name: "c09", Steps: 140, CanaryProb: 0.3, Hostile: 1, Churn: 2, Edits: 2, Holds: 0.3, Commands: 0.3, DupPods: 1.5, Affinity: -1, MaxNodes: 8, PodFaults: 0.25, Burst: 4}
 	profC03 = sim.Profile{Name: "c03", OldDS: 0.3, Steps: 150, CanaryProb: 0.4, Hostile: 2, Churn: 2.5, Edits: 3.5, Holds: 0.2, Commands: 0.3, DupPods: 0.5, Affinity: -1, MaxNodes: 10}
